@@ -10,7 +10,9 @@ Oracle (the property itself, on the real binary): exit 0; last message "Aborted.
 progress is finished and no further one started; every time-indexed dataset has as many rows as the
 time axis; every record but the final one equals the uninterrupted run's record of the same index;
 every record (the final one included) equals the record of the same step number of a reference run
-that writes every step.  Thorough also: real asynchronous kill -INT at random times."""
+that writes every step.  Thorough also: real asynchronous kill -INT at random times.
+Families stream (seed F4-J): the same oracles with every dataset family switched on and SavePhaseSpace 0 / k / zero steps, SIGINT
+at every hook label; the append overloads' control flow and every access to the flag are theorems about Gen_H5Append / Gen_AbortFlag."""
 import os, json, shutil, signal, subprocess, time
 from vp_common import *
 import vp_coq, vp_build
@@ -50,6 +52,19 @@ def consistent_lengths(h):
     return bad
 
 
+def ps_view(h):
+    """the file with /PhaseSpace/data and /PhaseSpace/axis0 cut to their common length (a mismatch is reported by
+    consistent_lengths; the record comparison then still runs on what is there)"""
+    nd, na = dc.nrows(h, "/PhaseSpace/data"), dc.nrows(h, "/PhaseSpace/axis0")
+    if nd is None or na is None or nd == na:
+        return h
+    n = min(nd, na)
+    h2 = dict(h)
+    for ds in ("/PhaseSpace/data", "/PhaseSpace/axis0"):
+        h2[ds] = dict(h[ds], rows=h[ds]["rows"][:n], dims=[n] + h[ds]["dims"][1:])
+    return h2
+
+
 def prefix_identical(h, hun, final_rows=1):
     """every record but the final one equals the uninterrupted run's record of the same index"""
     bad, ncmp = [], 0
@@ -80,7 +95,7 @@ def one_point(ctx, tg, cfg, wd, i, rep, un, hun, href, refcfg, points, nsetup, d
     return r, h, label, case
 
 
-def check_outcome(ctx, cfg, r, h, label, case, i, un, hun, href, refcfg, mo, points, nsetup, dis):
+def check_outcome(ctx, cfg, r, h, label, case, i, un, hun, href, refcfg, mo, points, nsetup, dis, tag=""):
     for x in (dc.compare_with_model(cfg, r, h, mo, points, nsetup) if mo is not None else []):
         dis.append(dict(case=case, detail=x, sig={"stage": "correspondence", "what": x.split(" ")[0]}))
     ctx.count("point:" + label.split(":")[0])
@@ -107,10 +122,10 @@ def check_outcome(ctx, cfg, r, h, label, case, i, un, hun, href, refcfg, mo, poi
         for b in bad:
             vio.append(("prefix", b + " (SIGINT at %s)" % label))
         skip = set()
-        d2, n2 = dc.compare_common(href, refcfg, h, cfg, skip=skip)
+        d2, n2 = dc.compare_common(href, refcfg, ps_view(h), cfg, skip=skip)
         for b in d2[:2]:
             vio.append(("final", "against the every-step reference: " + b + " (SIGINT at %s)" % label))
-        ctx.case_done("%s@%d%s" % (label, i, "r" if case["INOVESA_VERIF_SIGINT_REPEAT"] else ""), ncmp + n2 > 0 and m_exp < dc.laststep(cfg) or i >= nsetup)
+        ctx.case_done("%s%s@%d%s" % (tag, label, i, "r" if case["INOVESA_VERIF_SIGINT_REPEAT"] else ""), ncmp + n2 > 0 and m_exp < dc.laststep(cfg) or i >= nsetup)
     for key, what in vio[:3]:
         ctx.violation("impl-oracle", what, case=case, observed=dict(rc=r["rc"], tail=tail), sig={"oracle": key, "where": label.split(":")[0]})
     ctx.sample(dict(case=case, steps_executed=r["labels"].count("loop:head"), tail=tail, rc=r["rc"]))
@@ -280,6 +295,100 @@ def early_exits(ctx, tg, wd, dis, use_model):
             ctx.case_done("early:%s@%s%s" % (name, i, "r" if rep else ""), i is not None)
 
 
+def family_configs(rng, tfile, thorough):
+    """every dataset family switched on (wake: CSR + wake potential + padded, tracking, RF phase modulation) with the three
+    regimes of --SavePhaseSpace: 0 (the default: the initial distribution is stored before the loop and a phase space only with
+    the final record), 1, k > 1 (a phase space with every k-th record), and a run of zero steps (-T 0: the final record is
+    written for the instant of the initial distribution)"""
+    base = dict(n=16, T=1, renorm=0, wake=True, verbose=False, tracking=tfile)
+    res = [dict(base, N=rng.choice([4, 5]), outstep=rng.choice([1, 2]), h5save=0, dynrf=True),
+           dict(base, N=rng.choice([5, 6]), outstep=1, h5save=rng.choice([2, 3]), dynrf=rng.random() < 0.5),
+           dict(base, N=rng.choice([4, 6]), T=0, outstep=rng.choice([1, 2]), h5save=rng.choice([0, 0, 1, 2]), dynrf=True)]
+    if thorough:
+        res.append(dict(base, N=6, outstep=3, h5save=0, dynrf=False, renorm=2))
+        res.append(dict(base, N=5, outstep=1, h5save=1, dynrf=True, tracking=None))
+    return res
+
+
+def family_stream(ctx, tg, wd, tfile, points, dis, use_model):
+    """seed F4-J class: a slip in the file layer that shows only for a particular combination of interrupt point and output
+    options (there: an interrupt before the first step with the default SavePhaseSpace 0, where the final record carries the
+    time of the stored initial distribution).  For each configuration of family_configs: the uninterrupted file must have
+    consistent lengths; SIGINT at the first occurrence of EVERY hook label (every set-up and prologue point, every point of
+    the first iteration, the first output block and the final block), at a random later occurrence of each label, and beyond
+    the last point (thorough: every point); same oracles and model comparison as the main stream.  Own PRNG: the older
+    streams keep their draws."""
+    import random
+    rng = random.Random(ctx.seed * 7919 + 1409)
+    nruns = 0
+    for fi, cfg in enumerate(family_configs(rng, tfile, not ctx.quick())):
+        tag = "fam%d:" % fi
+        un = dc.run_real(tg, cfg, os.path.join(wd, "fun.h5"))
+        hun = dc.h5read(tg, os.path.join(wd, "fun.h5"))
+        refcfg = dict(cfg, outstep=1, h5save=1)
+        dc.run_real(tg, refcfg, os.path.join(wd, "fref.h5"), want_trace=False)
+        href = dc.h5read(tg, os.path.join(wd, "fref.h5"))
+        case0 = dict(cmd=" ".join(dc.cmdline(cfg, "int.h5")), stream="families")
+        if hun is None or href is None or un["rc"] != 0:
+            ctx.violation("impl-oracle", "uninterrupted run failed", case=dict(cmd=un["cmd"]), observed=un["log"][-400:], sig={"oracle": "run-failed"})
+            continue
+        for b in consistent_lengths(hun):
+            ctx.violation("impl-oracle", "uninterrupted run: " + b, case=case0, sig={"oracle": "lengths", "where": "uninterrupted"})
+        ts = dc.time_steps(hun, cfg)
+        if not ts or ts[-1] != dc.laststep(cfg):
+            ctx.violation("impl-oracle", "uninterrupted run: final record at step %s, expected %d" % (ts[-1] if ts else None, dc.laststep(cfg)),
+                          case=case0, sig={"oracle": "steps", "where": "uninterrupted"})
+        nsetup = len([l for l in un["labels"] if l.startswith("setup:")])
+        if use_model:
+            orc = dc.setup_oracle(un["labels"], True)
+            if orc is None:
+                dis.append(dict(case=dict(cmd=un["cmd"]), detail="no environment of the set-up skeleton reproduces the label trace",
+                                sig={"stage": "correspondence", "what": "setup-oracle"}))
+            else:
+                cfg = dict(cfg, _oracle=orc)
+                refcfg = dict(refcfg, _oracle=orc)
+            for x in dc.compare_with_model(cfg, un, hun, dc.run_model([("m", cfg, None, False, nsetup)])["m"], points, nsetup):
+                dis.append(dict(case=dict(cmd=un["cmd"]), detail=x, sig={"stage": "correspondence", "what": x.split(" ")[0]}))
+        P = len(un["labels"])
+        if ctx.quick():
+            by = {}
+            for i, l in enumerate(un["labels"]):
+                by.setdefault(l, []).append(i)
+            chosen = set([P])
+            for l, idxs in by.items():
+                chosen.add(idxs[0])
+                if len(idxs) > 1 and rng.random() < 0.5:
+                    chosen.add(rng.choice(idxs[1:]))
+            chosen = sorted(chosen)
+        else:
+            chosen = list(range(P + 1))
+        plan = [(i, rng.random() < 0.15) for i in chosen]
+        models = dc.run_model([("f%d_%d" % (i, rep), cfg, i, rep, nsetup) for i, rep in plan]) if use_model else {}
+        for i, rep in plan:
+            r, h, label, case = one_point(ctx, tg, cfg, wd, i, rep, un, hun, href, refcfg, points, nsetup, dis, tag)
+            case["stream"] = "families"
+            check_outcome(ctx, cfg, r, h, label, case, i, un, hun, href, refcfg, models.get("f%d_%d" % (i, rep)), points, nsetup, dis, tag=tag)
+            nruns += 1
+        ctx.count("family-config:h5save=%s,T=%s" % (cfg["h5save"], cfg["T"]))
+    ctx.extra["family_stream_runs"] = nruns
+
+
+def append_opaque_note(ctx):
+    """what the translator of the append overloads could not evaluate (conditions on the object's members / the arguments):
+    listed in the evidence; C14_append_records_all_or_nothing quantifies over their values"""
+    try:
+        import importlib, sys
+        sys.path.insert(0, os.path.join(VERIF, "translate"))
+        _, info = importlib.import_module("h5append2coq").translate()
+        ctx.extra["append_opaque_conditions"] = info["opaque"]
+        ctx.extra["append_member_writes"] = info["writes"]
+        for o in info["opaque"]:
+            ctx.notes.append("append overloads: condition `%s` in %s (line %s) is not a function of the AppendType/bool parameter%s" % (
+                o["text"], o["method"], o["line"], "; it reads the members %s of the object (state kept between calls)" % o["members"] if o["members"] else ""))
+    except Exception as e:
+        ctx.extra["append_opaque_conditions"] = "translation failed: %s" % e
+
+
 def run(ctx):
     ctx.rule = ("short runs (grid 16/32, 6-8 steps, outstep 2/3, SavePhaseSpace 1, wake on, tracking on, renormalisation "
                 "off/initial/periodic); SIGINT raised by the hook at the i-th executed point, for EVERY point of the run (set-up included), a third "
@@ -289,11 +398,16 @@ def run(ctx):
                 "thorough also asynchronous kill -INT at random times; four ways of leaving the set-up early (nothing to do, unknown output type, option "
                 "error, results file cannot be created), each undisturbed and with SIGINT at set-up points; the model executes the generated "
                 "set-up skeleton under the environment inferred from the run's own label trace; "
+                "families stream: three more configurations with every dataset family on (wake, tracking, RF modulation) and SavePhaseSpace 0 / k / a "
+                "zero-step run (-T 0): consistent lengths of the uninterrupted file, SIGINT at the first occurrence of every hook label (set-up and "
+                "prologue included), at a later occurrence of half of them and beyond the last point (thorough: every point, two more configurations); "
                 "non-trivial = the interrupt arrives after start-up or cuts the run short and records were compared")
     coq = vp_coq.full_check("C14", ctx, fams=("driver",))
     tg = ctx.build(harness=("h5cat",), want_binary=True)
     ctx.trusted.add("harness: harness/h5cat.cpp, lib/driver_cases.py, VERIF_POINT hook (inc/VerifHooks.hpp: raise(SIGINT) is "
                     "synchronous at the point), HDF5/FFTW libraries")
+    ctx.trusted.add("translate/h5append2coq.py (clang AST of HDF5File.cpp: statements without _appendData/return/throw are skipped), "
+                    "translate/abortflag2coq.py (lexical scan of src/ and inc/ for the identifier `abort`; preprocessor conditionals not evaluated)")
     ctx.trusted.add("harness/sigshim.c (LD_PRELOAD: raise(SIGINT) inside wrapped HDF5/FFTW entry points; the interior of the libraries "
                     "is reached by the asynchronous stream of the thorough tier only); translate/signals2coq.py is a lexical scan "
                     "(preprocessor conditionals not evaluated, function pointers to signal() obtained other than by name are not seen); "
@@ -347,6 +461,8 @@ def run(ctx):
         ctx.extra.setdefault("points_per_run", []).append(P)
         library_points(ctx, tg, cfg, wd, un, hun, href, refcfg, points, nsetup, dis, use_model)
     early_exits(ctx, tg, wd, dis, use_model)
+    family_stream(ctx, tg, wd, tfile, points, dis, use_model)
+    append_opaque_note(ctx)
     if not ctx.quick():
         async_stream(ctx, tg, wd, tfile)
     ctx.extra["traces_validated_against_impl"] = ntr
